@@ -149,6 +149,9 @@ impl Counter {
     pub fn zero() -> Self {
         Counter(SymU::konst(0))
     }
+    pub fn max_value() -> Self {
+        Counter(SymU::konst(u64::MAX))
+    }
     pub fn to_be_bytes(&self) -> [u8; 8] {
         let mut b = placeholder8(0xC7, self.0);
         if self.0.as_const().is_some() {
@@ -260,7 +263,35 @@ pub mod ant_protocol {
     }
 }
 pub mod ant_networking {
-    pub use ::ant_networking::NetworkError;
+    pub use ::ant_networking::{GetRecordCfg, GetRecordError, NetworkError};
+}
+
+/// model of the client's handle on the network: whatever an adversarial or faulty set of holders may return
+pub mod client {
+    use super::*;
+    pub type ChunkAddr = xor_name::XorName;
+    pub type VaultSecretKey = bls::SecretKey;
+    #[derive(Debug)]
+    pub struct SelfEncryptionError;
+    impl std::fmt::Display for SelfEncryptionError {
+        fn fmt(&self, f: &mut std::fmt::Formatter<'_>) -> std::fmt::Result {
+            write!(f, "self encryption")
+        }
+    }
+    impl std::error::Error for SelfEncryptionError {}
+    pub struct ClientNet {
+        pub reply: RefCell<Option<Result<Record, ::ant_networking::NetworkError>>>,
+        pub asked: RefCell<Vec<RecordKey>>,
+    }
+    impl ClientNet {
+        pub async fn get_record_from_network(&self, key: RecordKey, _cfg: &::ant_networking::GetRecordCfg) -> Result<Record, ::ant_networking::NetworkError> {
+            self.asked.borrow_mut().push(key);
+            self.reply.borrow_mut().take().expect("one reply per read")
+        }
+    }
+    pub struct Client {
+        pub network: ClientNet,
+    }
 }
 pub mod ant_evm {
     pub use crate::data_payments::{EncodedPeerId, PaymentQuote, ProofOfPayment, QUOTE_EXPIRATION_SECS};
